@@ -6,6 +6,7 @@ package drive
 import (
 	"context"
 	"fmt"
+	"os"
 	"sort"
 	"sync"
 	"sync/atomic"
@@ -409,6 +410,31 @@ func (in *Inst) Note(kind, node string) { in.note(kind, node) }
 
 // Quiesce waits for the quiescent point of the case.
 func (in *Inst) Quiesce(watchdog time.Duration) quiesce.Result {
+	r := in.quiesce(watchdog)
+	if QCheck && r.Quiescent {
+		before := in.consumed.Load()
+		time.Sleep(3 * time.Millisecond)
+		if after := in.consumed.Load(); after != before {
+			f, _ := os.OpenFile("/tmp/qcheck.log", os.O_CREATE|os.O_APPEND|os.O_WRONLY, 0o644)
+			fmt.Fprintf(f, "FALSE-QUIESCENCE: %d traces arrived after the quiescent point (label %s)\n", after-before, in.Label)
+			for _, g := range r.Gs {
+				fmt.Fprintf(f, "  g%s [%s] labels=%s %v\n", g.ID, g.State, g.Labels, g.Frames)
+			}
+			snap := quiesce.Take()
+			fmt.Fprintf(f, " -- all goroutines now:\n")
+			for _, g := range snap.Gs {
+				fmt.Fprintf(f, "  g%s [%s] labels=%s %v\n", g.ID, g.State, g.Labels, g.Frames)
+			}
+			f.Close()
+		}
+	}
+	return r
+}
+
+// QCheck enables the self-check of the quiescence oracle (debugging aid).
+var QCheck = os.Getenv("VERIF_QCHECK") != ""
+
+func (in *Inst) quiesce(watchdog time.Duration) quiesce.Result {
 	return quiesce.Wait(in.Label, watchdog, func() bool {
 		for _, ch := range in.Subs {
 			if len(ch) != 0 {
